@@ -53,7 +53,7 @@ ASSUMPTIONS = [
 REQUIRED_CLASSES = [
     "box:identity", "cyl:identity", "box:maps", "cyl:maps",
     "ray:miss", "ray:hit", "ray:inside-start", "ray:degenerate", "ray:axis-parallel", "ray:diagonal", "ray:tiny-tilt", "ray:generic",
-    "ray:tangent", "ray:in-phi-plane", "ray:vertical", "ray:two-passes", "ray:skippable-pass", "ray:periodic-image",
+    "pipeline:re-used-for-several-observations", "ray:tangent", "ray:in-phi-plane", "ray:vertical", "ray:two-passes", "ray:skippable-pass", "ray:periodic-image",
     "step:default", "step:0.3cell", "step:3cell", "n=min_samples",
     "map:mask", "map:voxel_map", "map:via-setter", "map:via-constructor", "map:with-holes", "map:merged", "map:empty-bin",
     "tf:identity", "tf:translate", "tf:rotate_y90", "tf:generic",
@@ -910,6 +910,48 @@ def _run_pipeline(case, g, gc, world, rt, O, D, Ow, Dw, K, nb, hit, ref, V, clas
             V.add("pipeline:0D:%s:row-vs-direct-trace:%s" % (pk, "samples>1" if ps > 1 else "samples=1"),
                   "ray-transfer matrix of a sight line differs from the spectral array of the same ray (x sensitivity for kind='power')",
                   want.tolist(), dict(_ray_desc(O, D, i), row=row.tolist(), pixel_samples=ps, sensitivity=sens, map=case["map"]))
+    # one pipeline object serving several observations: ONE sight line with ONE RayTransferPipeline0D moved from ray to ray (the last
+    # ray observed twice); every row must again be the direct trace of its ray, whatever was observed before
+    p0 = RayTransferPipeline0D(kind=pk)
+    sl = SightLine(pipelines=[p0], parent=world, sensitivity=sens)
+    setup(sl)
+    seq = [i for i in hits[:4] if i not in exc]
+    for n_obs, i in enumerate(seq + seq[-1:]):
+        f = Dw[i]
+        up = np.array([1.0, 0.0, 0.0]) if abs(f[0]) < 0.9 else np.array([0.0, 1.0, 0.0])
+        xax = np.cross(up, f)
+        xax /= np.linalg.norm(xax)
+        yax = np.cross(f, xax)
+        m = np.eye(4)
+        m[:3, 0], m[:3, 1], m[:3, 2], m[:3, 3] = xax, yax, f, Ow[i]
+        sl.transform = AffineMatrix3D(m.tolist())
+        try:
+            sl.observe()
+            row = np.asarray(p0.matrix)
+        except Exception as e:  # noqa
+            V.add("pipeline:0D:%s:re-used:raises:%s" % (pk, type(e).__name__), "observing again with the same RayTransferPipeline0D raised", "a matrix", "%s: %s" % (type(e).__name__, str(e)[:200]))
+            break
+        ntrace += ps
+        want = E[i, :bins] * (sens if pk == "power" else 1.0)
+        if row.shape != (bins,) or (np.abs(row - want) > 1e-8 * scale[i]).any():
+            V.add("pipeline:0D:%s:re-used-pipeline:row-vs-direct-trace" % pk,
+                  "ray-transfer matrix of observation number %d made with one and the same RayTransferPipeline0D differs from the spectral array of the ray observed" % (n_obs + 1),
+                  want.tolist(), dict(_ray_desc(O, D, i), row=row.tolist(), pixel_samples=ps, sensitivity=sens, map=case["map"], observation=n_obs + 1))
+            break
+    sl.parent = None
+    if M is not None and M.shape == (nx, ny, bins):
+        cam.parent = world
+        try:
+            cam.observe()
+            M2 = np.asarray(pipe.matrix)
+            if M2.shape != M.shape or (np.abs(M2 - M) > 1e-12 * max(1.0, float(np.abs(M).max()))).any():
+                V.add("pipeline:2D:%s:re-used-pipeline:second-observation-differs" % pk, "the second observation of the same camera with the same RayTransferPipeline2D gives another matrix",
+                      M.reshape(-1, bins)[:4].tolist(), M2.reshape(-1, bins)[:4].tolist() if M2.ndim == 3 else list(M2.shape))
+        except Exception as e:  # noqa
+            V.add("pipeline:2D:%s:re-used:raises:%s" % (pk, type(e).__name__), "observing again with the same RayTransferPipeline2D raised", "a matrix", "%s: %s" % (type(e).__name__, str(e)[:200]))
+        ntrace += len(sel) * ps
+        cam.parent = None
+    classes.append("pipeline:re-used-for-several-observations")
     classes.append("pipeline:2D:" + pk)
     classes.append("pipeline:0D:" + pk)
     classes.append("pipeline:pixel_samples=%d" % ps)
